@@ -213,6 +213,14 @@ func (x *Exec) fieldRead(st *State, sname, path string, t types.Type, ref string
 
 func (x *Exec) fieldWrite(st *State, sname, path string, t types.Type, ref string, v *Val) {
 	e := x.e
+	if _, mine := x.owned[ref]; !mine || x.escaped[ref] {
+		x.escapes(v)
+	} else if v != nil && v.K == KInt {
+		// stored into an object that is itself still private: escapes when the container does
+		if _, ok := x.owned[v.S]; ok {
+			x.escaped[v.S] = true
+		}
+	}
 	switch e.kindOf(t) {
 	case KStruct:
 		stt := t.Underlying().(*types.Struct)
@@ -630,6 +638,8 @@ func (x *Exec) mapRead(st *State, m *Val, t types.Type, k *Val) (*Val, string) {
 }
 
 func (x *Exec) mapWrite(st *State, m *Val, t types.Type, k, v *Val, pos token.Pos) {
+	x.escapes(k)
+	x.escapes(v)
 	domK, valK, vs, _ := x.mapKeys(t)
 	x.noPanic(st, pos, "assignment to entry in nil map", Not(Eq(m.S, "0")))
 	dh := x.heapGet(st, domK, SArrAB)
@@ -649,6 +659,7 @@ func (x *Exec) mapDelete(st *State, m *Val, t types.Type, k *Val) {
 func (x *Exec) mapMake(st *State, t types.Type) *Val {
 	domK, valK, vs, _ := x.mapKeys(t)
 	ref := x.alloc(st, "map")
+	x.own(ref, t)
 	dh := x.heapGet(st, domK, SArrAB)
 	vh := x.heapGet(st, valK, arrSort(arrSort(vs)))
 	x.heapSetAt(st, domK, SArrAB, Store(dh, ref, "((as const (Array Int Bool)) false)"), ref)
@@ -795,6 +806,7 @@ func (x *Exec) composite(e *ast.CompositeLit, st *State, addr bool) *Val {
 		}
 		if addr {
 			ref := x.alloc(st, strings.ReplaceAll(cellName(t), ".", "_"))
+			x.own(ref, t)
 			x.writeThrough(st, t, ref, v)
 			return IntV(ref, types.NewPointer(t))
 		}
